@@ -191,10 +191,11 @@ pub fn c07(tier: &str, seed: u64) -> i32 {
     // two-chunk buffer, so eviction with dirty write-back happens inside a history
     // two colliding keys whose records sit exactly on a slot-class edge (11 bytes as chain tail, 10 as
     // head), so that an offset growing by a byte under some configuration really moves a record, and a
-    // third key of 60000 bytes in the same bucket (the key file passes 16 KiB and 128 KiB)
+    // third key of 60000 bytes in a lower bucket of the same group of eight (the key file passes 16 KiB;
+    // emptying the higher bucket must leave the lower one visible to iteration)
     let mut m0 = std_map(KtId::Bytes, 64, 1, 11, seed, "m");
     m0.keys.extend(crate::alphabet::keys_in_bucket(KtId::Bytes, 64, 3, 1, 10, seed, &m0.keys));
-    m0.keys.push(crate::alphabet::keys_in_bucket(KtId::Bytes, 64, 3, 1, 60_000, seed, &[]).pop().unwrap());
+    m0.keys.push(crate::alphabet::keys_in_bucket(KtId::Bytes, 64, 1, 1, 60_000, seed, &[]).pop().unwrap());
     let mut letters = Vec::new();
     for k in 0..3u8 {
         for v in 0..3u8 {
